@@ -98,11 +98,17 @@ def modelObs (x : Input) : Obs :=
     hAfter := canonH (hdrClone x.p.header)
     hAfterRaw := (hdrClone x.p.header).extProfile }
 
-/-- equal: every field (padding size included), nil-ness preserved -/
+/-- equal: every field (padding size, the deprecated PayloadOffset and the raw profile included).
+    Whether an EMPTY slice of the clone is nil or non-nil like the original's (`cloneNils`,
+    `hNils`) is observed and compared with the model (correspondence), but it is not demanded by
+    the predicate: the property speaks of equal fields, and nil and empty slices hold the same
+    (no) elements — the repository's own `assert.Equal` on byte slices does not distinguish them. -/
 def equal (x : Input) (o : Obs) : Bool :=
-  o.clone == Side.of x.p && o.cloneNils == x.nils && o.clonePO == x.po &&
-  o.hclone == canonH x.p.header && o.hRaw == x.p.header.extProfile &&
-  o.hNils == { x.nils with payload := false } && o.hPO == x.po
+  o.clone == Side.of x.p && o.clonePO == x.po &&
+  o.hclone == canonH x.p.header && o.hRaw == x.p.header.extProfile && o.hPO == x.po &&
+  -- … with one exception: GetExtension reports "no such element" as nil, so whether an EMPTY
+  -- element value is nil or not is visible through the accessor and must be preserved
+  o.cloneNils.extPl == x.nils.extPl && o.hNils.extPl == x.nils.extPl
 
 /-- no memory shared between the clone and the original -/
 def disjoint (o : Obs) : Bool :=
